@@ -9,6 +9,7 @@ import (
 	"sync"
 	"time"
 
+	"a0verif/instr"
 	"a0verif/plan"
 )
 
@@ -22,6 +23,7 @@ type c09Job struct {
 	Seed   uint64    `json:"seed"`
 	Cases  []c09Case `json:"cases,omitempty"`
 	capped bool
+	env    []string // additions to the process environment of this job
 }
 type c09Case struct {
 	Kind  string `json:"kind"`
@@ -31,6 +33,7 @@ type c09Case struct {
 	Lang  int    `json:"lang"`
 	State string `json:"state,omitempty"`
 	Seed  uint64 `json:"seed,omitempty"`
+	Idle  bool   `json:"idle,omitempty"`
 }
 type c09Viol struct {
 	Case   c09Case      `json:"case"`
@@ -38,6 +41,7 @@ type c09Viol struct {
 	Class  string       `json:"class"`
 	Detail string       `json:"detail"`
 	Out    plan.Outcome `json:"outcome"`
+	env    []string
 }
 type c09Result struct {
 	Cases       int            `json:"cases"`
@@ -67,6 +71,7 @@ type c09Verdict struct {
 // the LAST one, the earlier ones only set the stage (a warmed cache, a failed source, ...).
 type c09Plan struct {
 	Cases []c09Case `json:"cases"`
+	Env   []string  `json:"env,omitempty"` // additions to the process environment
 }
 
 func c09Key(c *c09Case, class string) string {
@@ -79,10 +84,13 @@ func c09Key(c *c09Case, class string) string {
 func c09Violation(v *c09Viol) *Violation {
 	cs := append(append([]c09Case{}, v.Stage...), v.Case)
 	stage := ""
-	if len(v.Stage) > 0 {
-		stage = fmt.Sprintf(" (after %d earlier call(s) in the same process: %s)", len(v.Stage), mustJSON(v.Stage))
+	if len(v.env) > 0 {
+		stage = " [process environment: " + strings.Join(v.env, " ") + "]"
 	}
-	return &Violation{Property: "C09", Class: v.Class, Key: c09Key(&v.Case, v.Class), Engine: "srcsim-c09", Plan: c09Plan{Cases: cs},
+	if len(v.Stage) > 0 {
+		stage += fmt.Sprintf(" (after %d earlier call(s) in the same process: %s)", len(v.Stage), mustJSON(v.Stage))
+	}
+	return &Violation{Property: "C09", Class: v.Class, Key: c09Key(&v.Case, v.Class), Engine: "srcsim-c09", Plan: c09Plan{Cases: cs, Env: v.env},
 		Detail: v.Detail + stage + "; outcome " + v.Out.Out + " err=" + v.Out.Err + " panic=" + v.Out.Panic}
 }
 
@@ -93,10 +101,15 @@ type c09Engine struct {
 
 // capped runs a worker under an address-space limit so that a dropped upper
 // bound ends as a crash of that one process, attributed to its single case.
-func (g *c09Engine) runCapped(c c09Case) (*c09Viol, error) { return g.runCappedSeq([]c09Case{c}) }
+func (g *c09Engine) runCapped(c c09Case) (*c09Viol, error) { return g.runCappedSeq([]c09Case{c}, nil) }
 
 // runCappedSeq runs the cases in one capped process and returns the verdict on the last one.
-func (g *c09Engine) runCappedSeq(cs []c09Case) (*c09Viol, error) {
+func (g *c09Engine) runCappedSeq(cs []c09Case, env []string) (v *c09Viol, err error) {
+	defer func() {
+		if v != nil {
+			v.env = env
+		}
+	}()
 	c := cs[len(cs)-1]
 	var res c09Result
 	d := g.e.JobDir()
@@ -104,7 +117,7 @@ func (g *c09Engine) runCappedSeq(cs []c09Case) (*c09Viol, error) {
 	if err := WriteFileJSON(inP, c09Job{Kind: "explicit", Cases: cs}); err != nil {
 		return nil, err
 	}
-	p := g.e.RunProc(90*time.Second, nil, d, "/bin/sh", "-c", "ulimit -v 4194304; exec \"$0\" c09 \"$1\" \"$2\"", g.bin, inP, outP)
+	p := g.e.RunProc(90*time.Second, env, d, "/bin/sh", "-c", "ulimit -v 4194304; exec \"$0\" c09 \"$1\" \"$2\"", g.bin, inP, outP)
 	if p.TimedOut {
 		return &c09Viol{Case: c, Class: "hang", Detail: "the call did not return within 90 s (worker killed)"}, nil
 	}
@@ -156,7 +169,7 @@ func (g *c09Engine) Reproduce(pl interface{}) (*Violation, error) {
 	if err != nil {
 		return nil, err
 	}
-	v, err := g.runCappedSeq(p.Cases)
+	v, err := g.runCappedSeq(p.Cases, p.Env)
 	if err != nil || v == nil {
 		return nil, err
 	}
@@ -170,7 +183,7 @@ func (g *c09Engine) Minimise(v *Violation) *Violation {
 	}
 	cs := p.Cases
 	same := func(t []c09Case) *c09Viol {
-		got, err := g.runCappedSeq(t)
+		got, err := g.runCappedSeq(t, p.Env)
 		if err == nil && got != nil && got.Class == v.Class {
 			return got
 		}
@@ -224,7 +237,7 @@ func CheckC09(e *Env) (int, error) {
 	eng := &c09Engine{e, src}
 	thorough := e.Tier == "thorough"
 	allLangs := []int{0, 1, 2, 3, 4, 5, 6, 7, 8, 9, -1, 10, 100, 1 << 40}
-	allStates := []string{"work", "frag", "eof0", "err0", "stall", "afterfail"}
+	allStates := []string{"work", "frag", "eof0", "err0", "stall", "afterfail", "afteridle"}
 	sd := func(name string, i int) uint64 { return plan.Derive(e.Seed, "C09/"+name, uint64(i)) }
 	var jobs []c09Job
 	const span = 4096
@@ -287,6 +300,19 @@ func CheckC09(e *Env) (int, error) {
 		jobs = append(jobs, c09Job{Kind: "explicit", capped: true, Cases: []c09Case{{Kind: "count", Count: v, Lang: []int{2, 5, 9, -1}[i%4], State: st, Seed: sd("ext", i)}}})
 	}
 
+	// the environment is no argument: every variable the tree is seen to read, set in turn to plausible values,
+	// with the sizes around the accepted windows
+	envNames, envOpaque := instr.EnvNames(e.RepoCopy())
+	envVals := append([]string{"1", "true", "0", "legacy", "all", "C", "en_US.UTF-8", "ja_JP.UTF-8"}, instr.EnvValueCandidates(e.RepoCopy())...)
+	envJobs := 0
+	for _, name := range envNames {
+		for _, val := range envVals {
+			ev := []string{name + "=" + val}
+			jobs = append(jobs, c09Job{Kind: "counts", Lo: -8, Hi: 72, Langs: []int{2, 5, 9, -1}, States: []string{"work", "eof0"}, Seed: sd("env", envJobs), env: ev})
+			jobs = append(jobs, c09Job{Kind: "entropy", Lo: 0, Hi: 136, Langs: []int{2, 5, 9, -1}, Seed: sd("envent", envJobs), env: ev})
+			envJobs++
+		}
+	}
 	tot := c09Result{ByState: map[string]int{}, Probes: map[string]int{}}
 	var mu sync.Mutex
 	var viols []*Violation
@@ -330,7 +356,7 @@ func CheckC09(e *Env) (int, error) {
 			}
 			return
 		}
-		p, err := e.RunJSON(src, "c09", j, &r, 20*time.Minute)
+		p, err := e.RunJSON(src, "c09", j, &r, 20*time.Minute, j.env...)
 		mu.Lock()
 		defer mu.Unlock()
 		if err == nil && (p.Exit != 0 || p.TimedOut) {
@@ -354,6 +380,7 @@ func CheckC09(e *Env) (int, error) {
 		addMap(tot.ByState, r.ByState)
 		addMap(tot.Probes, r.Probes)
 		for k := range r.Viol {
+			r.Viol[k].env = j.env
 			viols = append(viols, c09Violation(&r.Viol[k]))
 		}
 		if len(samples) < 10 {
@@ -372,24 +399,28 @@ func CheckC09(e *Env) (int, error) {
 	cov := map[string]interface{}{
 		"evaluations":         tot.Cases,
 		"distinct_nontrivial": tot.DistinctNT,
-		"rule":                "NewMnemonic half: every count in the range x 14 Language values (10 supported, 4 unsupported) x 6 device states (working, fragmenting, EOF at byte 0, error at byte 0, stall-then-work, working-after-a-call-whose-source-failed-part-way), plus the extremes of int and every count congruent to an accepted count modulo 2^8..2^63 (arithmetic-wrap classes) one capped process each; NewMnemonicByEntropy half: nil and every length in the range plus 65536 and 1 MiB. Non-trivial: a size a bound/modulus slip would treat differently (multiples of 3 resp. 4, sizes within 3 resp. 4 of the accepted window, negatives, > 2^20, nil); distinct by (size, device state) resp. (length, nil).",
+		"rule":                "NewMnemonic half: every count in the range x 14 Language values (10 supported, 4 unsupported) x 7 device states (working, fragmenting, EOF at byte 0, error at byte 0, stall-then-work, working-after-a-call-whose-source-failed-part-way, working-after-simulated-idle-time), plus the extremes of int and every count congruent to an accepted count modulo 2^8..2^63 (arithmetic-wrap classes) one capped process each; NewMnemonicByEntropy half: nil and every length in the range plus 65536 and 1 MiB. Non-trivial: a size a bound/modulus slip would treat differently (multiples of 3 resp. 4, sizes within 3 resp. 4 of the accepted window, negatives, > 2^20, nil); distinct by (size, device state) resp. (length, nil).",
 		"exhaustive":          false,
 		"samples":             samples,
 		"runs":                tot.Cases,
 		"count_cases":         tot.CountCases,
 		"entropy_cases_plain_sweep_no_simulation_content": tot.EntCases,
-		"rejected_counts":                 tot.Rejected,
-		"accepted_counts":                 tot.Accepted,
-		"extreme_counts_capped_processes": extreme,
-		"device_states":                   tot.ByState,
-		"sim_steps_total":                 tot.DeviceReads,
-		"sim_time_note":                   "no clock in the system; counted in device reads",
-		"probes":                          tot.Probes,
-		"faults_fired":                    map[string]int{"eof_at_0_state": tot.ByState["eof0"], "err_at_0_state": tot.ByState["err0"], "stall_state": tot.ByState["stall"], "fragmenting_state": tot.ByState["frag"]},
-		"raw_violations":                  tot.ViolCount,
-		"outcome_digest":                  od.String(),
-		"count_range":                     []int{-span, span},
-		"entropy_len_range":               []int{0, entHi},
+		"rejected_counts":                        tot.Rejected,
+		"accepted_counts":                        tot.Accepted,
+		"extreme_counts_capped_processes":        extreme,
+		"device_states":                          tot.ByState,
+		"clock_seam_files":                       e.ClockFiles("go"),
+		"environment_variables_read_by_the_tree": envNames,
+		"environment_reads_with_opaque_names":    envOpaque,
+		"jobs_with_environment_set":              envJobs,
+		"sim_steps_total":                        tot.DeviceReads,
+		"sim_time_note":                          "no clock in the system; counted in device reads",
+		"probes":                                 tot.Probes,
+		"faults_fired":                           map[string]int{"eof_at_0_state": tot.ByState["eof0"], "err_at_0_state": tot.ByState["err0"], "stall_state": tot.ByState["stall"], "fragmenting_state": tot.ByState["frag"]},
+		"raw_violations":                         tot.ViolCount,
+		"outcome_digest":                         od.String(),
+		"count_range":                            []int{-span, span},
+		"entropy_len_range":                      []int{0, entHi},
 	}
 	if err := e.WriteEvidence("C09", "exploration", cov, []string{
 		"the verif hook swaps the variable NewMnemonic reads, so 'bytes delivered by the device' is 'randomness consumed'",
